@@ -158,7 +158,7 @@ def batch(tier, seed):
         forms += [random_formula(rng, 3) for _ in range(20)]
     else:
         forms += d2
-        forms += [random_formula(rng, 3) for _ in range(600)]
+        forms += [random_formula(rng, 3) for _ in range(400)]
     seen = set()
     out = []
     for f in forms:
